@@ -47,11 +47,28 @@ def spec(tier):
   return s
 
 
-PLANS = {'small': PLAN_SMALL, 'smallq': PLAN_SMALL_QUICK, 'n3': PLAN_N3, 'n3q': PLAN_N3_QUICK,
+PLAN_BLK = {'shipped': False, 'uniform': [],
+            'perop': ['NQ', 'BLK8', 'SRQ8a', 'WO8c'], 'io': ['none']}
+PLANS = {'blk': PLAN_BLK, 'small': PLAN_SMALL, 'smallq': PLAN_SMALL_QUICK, 'n3': PLAN_N3, 'n3q': PLAN_N3_QUICK,
          'n4': PLAN_N4}
 
 
+BLK_TYPES = ['FULLY_CONNECTED', 'ADD', 'TANH', 'RESHAPE', 'ABS']
+
+
+def blk_cases():
+  """rank-3 inputs: the only shape the op-replacement (blockwise) mode takes."""
+  for n in (1, 2):
+    for c in universe.graph_cases(
+        [(n, BLK_TYPES, {'FULLY_CONNECTED': ['bias', 'nobias', 'bias_relu']},
+          'one')], {'rp': 'blk'}):
+      if any(o['t'] == 'FULLY_CONNECTED' for o in c['ir']['subgraphs'][0]['ops']):
+        c['ir']['x'] = 'R3'
+        yield c
+
+
 def cases(tier, sigrev=False):
+  yield from blk_cases()
   for n, types, variants, exports, pname in spec(tier):
     yield from universe.graph_cases([(n, types, variants, exports)],
                                     {'rp': pname}, sigrev=sigrev and n <= 2)
